@@ -14,7 +14,11 @@ CONFIG = dict(
           "plus random edges optimum+eps +-1ulp; ChangeOf over ALL value histories of length <=5 over {5,6,8} for PartialEqChecker "
           "and DeltaEqChecker thresholds 0,1,2, plus random histories of length <=30 (also next to u32::MAX), and over objective values "
           "(BestObjectiveValueLens, thresholds 0/0.1/0.15/1/inf and PartialEq: all histories of length <=3 over 8 values incl. +inf, "
-          "random longer ones); all Boolean formulas "
+          "random longer ones), with re-initialisations (all histories of length <=5 over {observe 5,6,8, re-init} x 3 checkers), "
+          "several conditions over different u32 lenses (Iterations, Evaluations, two custom states) in one State evaluated / re-initialised "
+          "interleaved (all sequences of length <=5 over 5 tokens for two conditions + random with 2..4 conditions), inside real Scope "
+          "components (random trees of depth <=2, Block::init / Scope lifecycle), two conditions over the same lens, and a real Loop "
+          "guarded by ChangeOf entered 1..4 times (plain and inside a Scope) with a body that rewrites the observed value; all Boolean formulas "
           "of depth <=2 with up to 3 children per connective over operands a,b,c under all 27 outcome assignments (true/false/error), "
           "all depth-3 formulas with <=2 children under the 8 Boolean assignments plus sampled error assignments (all 27 in the "
           "thorough tier), every operand occurrence individually tagged and logging its evaluations; RandomChance with a scripted "
@@ -30,21 +34,26 @@ CONFIG = dict(
         "State registry access (insert / set_value / try_borrow_value_mut) behaves as a typed map (C01/C02)",
         "u32 -> f64 conversion and IEEE division for the progress value (the driver uses native doubles)"],
     assumptions=["SplitMix64-seeded generator", "the loop body leaves the loop counter alone (Iterations) or adds a fixed step (Evaluations)",
-                 "counters stay below 2^32 (u32 overflow is not modelled)"],
+                 "counters stay below 2^32 (u32 overflow is not modelled)",
+                 "nested iteration-bounded loops without a Scope share the one Iterations counter (documented by mahf); the loop theorems are about a counter only this loop advances",
+                 "scopes / Block::init lifecycle of ChangeOf are modelled and checked by K/O; the independence theorem is stated for one registry level"],
 )
 CONFIG.update(
     level_text=("Lean 4 theorems: LessThanN is true iff value < n and writes value/n; a Loop guarded by LessThanN over the iteration "
                 "counter makes exactly n passes, n+1 tests, ends with counter n and (exact arithmetic, n>=1) progress 1, for every n; "
                 "with a body adding step per pass it makes the least p with p*step >= n; EveryN = (n | value) for every n incl. 0 (only multiple of 0 is 0); "
-                "OptimumReached iff a best value exists and best - optimum <= eps (= |best - optimum| <= eps above the optimum); ChangeOf "
+                "OptimumReached iff a best value exists and |best - optimum| <= eps, under the explicit hypothesis that the known optimum is a "
+                "lower bound of the best value (the code tests best <= optimum + eps; below optimum - eps it answers true: optimumReached_below, "
+                "outside the property's domain, not flagged); ChangeOf "
                 "over every history fires at k iff k = 0 or the value differs (by the checker) from the value last reported, for both "
-                "checkers; And/Or/Not compute the Boolean combination and evaluate every operand exactly once in order (no short-circuit), "
+                "checkers; after every (re-)init it behaves like a fresh condition (first evaluation fires); several conditions whose Previous "
+                "key (lens type) is not shared follow their own histories under arbitrary interleaving; And/Or/Not compute the Boolean combination and evaluate every operand exactly once in order (no short-circuit), "
                 "an operand error aborts after a prefix; RandomChance fires for exactly floor(p*2^64) of the 2^64 words, always for p = 1. "
                 "Tied to /repo by running the real conditions, the real Loop and rand's gen_bool on generated cases and diffing against "
                 "the compiled model (K) and the specification-side predicates (O)."),
     level_note=("Trusted: Lean kernel; rand 0.8.8 word-to-bool mapping as modelled (checked on scripted words); the State registry; "
                 "native double arithmetic for the progress value. Theorems about progress = 1 and OptimumReached are in exact (ordered "
                 "field) arithmetic; the float side is checked by K/O only. Observation (not a violation of the stated property): with "
-                "n = 0 LessThanN reports progress 0/0 = NaN. Known finding: ChangeOf + DeltaEqChecker<SingleObjective> "
+                "n = 0 LessThanN reports progress 0/0 = NaN. Known findings: two ChangeOf over the same lens type on one registry level share their memory; ChangeOf + DeltaEqChecker<SingleObjective> "
                 "fires on every evaluation while the value stays +inf (inf - inf = NaN). (EveryN with n = 0 was repaired in /repo c00d550.)"),
 )
